@@ -124,3 +124,34 @@ def tlc_scenarios(cfg, num, depth, seed, prefix, timeout=600):
         for side in ("client", "server"):
             scen.append({"id": "%s%d.%s" % (prefix, i, side), "side": side, "gated": True, "steps": steps})
     return scen, res
+
+
+def strict(v, rows):
+    """Strict validation of the recorded traces against Conn.tla (binding / drift). Traces that use
+    the generic outgoing-notification step are not modelled by Conn.tla and are skipped."""
+    tr = vlib.split_traces(rows)
+    keep = [(tid, t) for (tid, s, t) in tr if not any(x.get("ev") == "notify.begin" for x in t)]
+    bad = {tid for (tid, s, t) in tr if any(x.get("ev") in ("panic", "setup.error") for x in t)}
+    keep = [(tid, t) for (tid, t) in keep if tid not in bad]
+    out = vlib.outdir(v.pid)
+    accepted = 0
+    for attempt in range(6):
+        cur = [r for (tid, t) in keep for r in t]
+        sp = os.path.join(out, "obs_strict.ndjson")
+        vlib.write_ndjson(sp, cur)
+        ok, hwm, res = vlib.run_strict("ConnTrace", "ConnTrace.cfg", sp, timeout=1800, heap_gb=8,
+                                       java_opts=["-Dtlc2.tool.queue.IStateQueue=StateDeque"])
+        v.add_tlc("ConnTrace(strict)", res)
+        if ok:
+            accepted = len(keep)
+            break
+        if res.violation and (hwm is None or hwm < 1):
+            v.drift.append("a Conn.tla invariant (%s) is violated on a state of a recorded trace" % res.violation)
+            break
+        t2 = vlib.split_traces(cur)
+        tid, start, trows = vlib.trace_of_line(t2, hwm)
+        v.drift.append("trace %s: line %d not explained by Conn.tla: %s" % (tid, hwm - start, json.dumps(cur[hwm - 1])[:240]))
+        keep = [(t, x) for (t, x) in keep if t != tid]
+    v.cov["strict_traces_explained_by_spec"] = accepted
+    v.cov["strict_traces_skipped"] = len(tr) - len(keep)
+    return accepted
